@@ -290,11 +290,20 @@ class CallMixin:
             return self.inline_contract(ct, recv, args, kwargs)
         bound = self.bind_params(ct, recv, args, kwargs)
         env = {}
-        for name, v in bound.items():
-            if name in ct.params:
-                env[name] = self.coerce_param(v, ct.params[name])
-            else:
-                env[name] = v
+        top = getattr(self.frames[0], "contract", None)
+        try:
+            for name, v in bound.items():
+                if getattr(v, "unknown", False):
+                    raise Unsupported("argument of unknown content")
+                if name in ct.params:
+                    env[name] = self.coerce_param(v, ct.params[name])
+                else:
+                    env[name] = v
+        except Unsupported:
+            if top is not None and top.unwind == "havoc" and not ctx.spec:
+                # frame-only verification: a callee whose arguments are outside the encoding is an unmodelled call
+                return self.opaque_call(ct.func, args, kwargs)
+            raise
         self.engine.record_call(ctx.contract, ct)
         fr = Frame(env, self.frames[-1].module, None, ct.func)
         self.frames.append(fr)
@@ -570,6 +579,10 @@ class CallMixin:
         ext = self.engine.extern(name)
         if ext is not None:
             return ext(self, args, kwargs)
+        if name in ("set", "list", "tuple", "sorted", "frozenset", "dict", "sum", "min", "max") and args \
+                and isinstance(args[0], tuple) and args[0] and args[0][0] == "genexp" and not ctx.spec:
+            return self.unknown_cell("set" if name in ("set", "frozenset") else "list") if name in ("set", "list", "frozenset", "sorted") \
+                else Opaque(f"{name}(genexp)", fresh=True)
         if name in ("isinstance", "min", "max", "abs", "int", "float", "sum", "sorted", "round", "bool", "ord", "tuple", "dict", "zip",
                     "enumerate", "any", "all", "next", "iter", "reversed", "str") \
                 and any(isinstance(a, Opaque) or getattr(a, "unknown", False) for a in args):
